@@ -20,8 +20,15 @@ Sub-driver of M-EXPR.  One request per line:
 namespace SaVerif.Drv.Expr
 open SaVerif.Drv SaVerif.Expr SaVerif.Pratt
 
-/-- the driver evaluates only interpreted symbols -/
-instance : Abs := ⟨fun _ _ => .null, fun _ v => v⟩
+/-- SQLite's `/` on integer values: truncating division, NULL for a zero divisor -/
+def sqliteDiv : Val → Val → Val
+  | .int a, .int b => if b = 0 then .null else .int (Int.tdiv a b)
+  | _, _ => .null
+
+/-- the driver evaluates on rows of integer values the way SQLite does: a CAST to INTEGER /
+    NUMERIC and FLOOR of an integer are the identity, every other function is not interpreted -/
+instance : Abs :=
+  ⟨fun n vs => if n = "FLOOR" then vs.headD .null else .null, fun _ v => v, sqliteDiv⟩
 
 def parseTy? : String → Option Ty
   | "int" => some .int | "num" => some .num | "str" => some .str | "bool" => some .bool
@@ -309,7 +316,8 @@ def handle : List String → String
       | some e =>
         let t := render dl true (lower e)
         let g := grammarOf dl
-        let flags := b01 (Core e) ++ b01 (WG e) ++ b01 (ok g t)
+        let flags := b01 (Core e) ++ b01 (WG e) ++ b01 (ok g t) ++
+          b01 (concatFull g || ConcatSafe dl e)
         match parse g t.print with
         | none => "noparse " ++ b01 (wb g t.norm) ++ " " ++ flags
         | some p => "ok " ++ b01 (wb g t.norm) ++ " " ++ b01 (p == t.norm) ++ " " ++ flags
@@ -329,21 +337,23 @@ def handle : List String → String
         "ok " ++ readToks (grammarOf dl) (t.print.map eraseTok) ++ " " ++
           showStr (skelStr (collapseNeg t.strip.norm.skel))
     | _, _ => "bad-op"
-  | "evalu" :: ia :: ib :: ic :: rest =>
-    -- meaning of a fragment tree (`evalNumU` / `evalBoolU`) on one row of integer columns
-    match parseLit? ia, parseLit? ib, parseLit? ic, parseWire rest with
-    | some a, some b, some c, some u =>
+  | "evalu" :: ia :: ib :: ic :: sa :: sb :: rest =>
+    -- meaning of a fragment tree (`evalNumU` / `evalBoolU`) on one row of the integer and
+    -- string columns
+    match parseLit? ia, parseLit? ib, parseLit? ic, parseLit? sa, parseLit? sb, parseWire rest with
+    | some a, some b, some c, some x, some y, some u =>
       let env : String → Val := fun n =>
         if n == "ia" then litVal a else if n == "ib" then litVal b else if n == "ic" then litVal c
+        else if n == "sa" then litVal x else if n == "sb" then litVal y
         else .null
-      if NumU u then
+      if NumU u || StrU u then
         match evalNumU env .sqlite u with
         | .int i => "ok i" ++ toString i
         | .null => "ok N"
-        | .str _ => "ok str"
+        | .str z => "ok " ++ showStr z
       else if BoolU u then "ok " ++ tvStr (evalBoolU env .sqlite u)
       else "na"
-    | _, _, _, _ => "bad-op"
+    | _, _, _, _, _, _ => "bad-op"
   | "evalin" :: x :: n :: rest =>
     match parseLit? x, parseNat? n with
     | some xv, some k =>
